@@ -45,11 +45,11 @@ class AliasMethod(Sampling):
     def _draw_with_u(self, uniform: float):
         """ALIAS sampling with pre-generated uniform variable"""
         ku = self.K * uniform
-        x = np.uint(ku)
+        x = int(ku)
         v = ku - x
         if v < self.q[x]:
             return x
-        return self.J[x]
+        return int(self.J[x])
 
 
 def create_alias(probabilities):
